@@ -314,12 +314,8 @@ func (c *fileCtx) rewriteSelect(cur *astutil.Cursor, n *ast.SelectStmt) {
 			return
 		}
 	}
-	if len(sends) > 0 {
-		// supported form: a non-blocking send, `select { case ch <- v: A; default: B }`
-		if len(sends) != 1 || len(cases) != 0 || !hasDef {
-			c.errf(n.Pos(), "select with a send case is only supported as a single non-blocking send with default")
-			return
-		}
+	if len(sends) == 1 && len(cases) == 0 && hasDef {
+		// a non-blocking send, `select { case ch <- v: A; default: B }`
 		sw := &ast.SwitchStmt{Body: &ast.BlockStmt{List: []ast.Stmt{
 			&ast.CaseClause{List: []ast.Expr{call(sel("simrt", "TrySend"), sends[0].ch, sends[0].val)}, Body: sends[0].body},
 			&ast.CaseClause{List: nil, Body: defBody},
@@ -327,7 +323,11 @@ func (c *fileCtx) rewriteSelect(cur *astutil.Cursor, n *ast.SelectStmt) {
 		cur.Replace(sw)
 		return
 	}
-	if len(cases) == 0 || len(cases) > 4 {
+	if len(sends) > 1 || (len(sends) == 1 && len(cases) > 3) {
+		c.errf(n.Pos(), "select with %d send and %d receive cases is not supported (one send case and up to three receive cases are)", len(sends), len(cases))
+		return
+	}
+	if len(sends) == 0 && (len(cases) == 0 || len(cases) > 4) {
 		c.errf(n.Pos(), "select with %d receive cases is not supported", len(cases))
 		return
 	}
@@ -337,6 +337,14 @@ func (c *fileCtx) rewriteSelect(cur *astutil.Cursor, n *ast.SelectStmt) {
 	lhs := []ast.Expr{ast.NewIdent(idx)}
 	var blanks, vals []ast.Expr
 	args := []ast.Expr{ast.NewIdent(strconv.FormatBool(hasDef))}
+	fn := fmt.Sprintf("Select%d", len(cases))
+	base := 0 // switch value of the first receive case
+	if len(sends) == 1 {
+		// one send case (switch value 0) and up to three receive cases (1..3)
+		fn = fmt.Sprintf("SelectSend%d", len(cases))
+		base = 1
+		args = append(args, sends[0].ch, sends[0].val)
+	}
 	for i, k := range cases {
 		v := fmt.Sprintf("_sv%d_%d", id, i)
 		o := fmt.Sprintf("_so%d_%d", id, i)
@@ -345,9 +353,15 @@ func (c *fileCtx) rewriteSelect(cur *astutil.Cursor, n *ast.SelectStmt) {
 		vals = append(vals, ast.NewIdent(v), ast.NewIdent(o))
 		args = append(args, k.ch)
 	}
-	first := &ast.AssignStmt{Lhs: lhs, Tok: token.DEFINE, Rhs: []ast.Expr{call(sel("simrt", fmt.Sprintf("Select%d", len(cases))), args...)}}
-	second := &ast.AssignStmt{Lhs: blanks, Tok: token.ASSIGN, Rhs: vals}
+	first := &ast.AssignStmt{Lhs: lhs, Tok: token.DEFINE, Rhs: []ast.Expr{call(sel("simrt", fn), args...)}}
+	stmts := []ast.Stmt{first}
+	if len(vals) > 0 {
+		stmts = append(stmts, &ast.AssignStmt{Lhs: blanks, Tok: token.ASSIGN, Rhs: vals})
+	}
 	sw := &ast.SwitchStmt{Tag: ast.NewIdent(idx), Body: &ast.BlockStmt{}}
+	if len(sends) == 1 {
+		sw.Body.List = append(sw.Body.List, &ast.CaseClause{List: []ast.Expr{&ast.BasicLit{Kind: token.INT, Value: "0"}}, Body: sends[0].body})
+	}
 	for i, k := range cases {
 		var body []ast.Stmt
 		if len(k.lhs) > 0 {
@@ -368,12 +382,13 @@ func (c *fileCtx) rewriteSelect(cur *astutil.Cursor, n *ast.SelectStmt) {
 			body = append(body, &ast.AssignStmt{Lhs: k.lhs, Tok: tok, Rhs: rhs})
 		}
 		body = append(body, k.body...)
-		sw.Body.List = append(sw.Body.List, &ast.CaseClause{List: []ast.Expr{&ast.BasicLit{Kind: token.INT, Value: strconv.Itoa(i)}}, Body: body})
+		sw.Body.List = append(sw.Body.List, &ast.CaseClause{List: []ast.Expr{&ast.BasicLit{Kind: token.INT, Value: strconv.Itoa(i + base)}}, Body: body})
 	}
 	if hasDef {
 		sw.Body.List = append(sw.Body.List, &ast.CaseClause{List: nil, Body: defBody})
 	}
-	cur.Replace(&ast.BlockStmt{List: []ast.Stmt{first, second, sw}})
+	stmts = append(stmts, sw)
+	cur.Replace(&ast.BlockStmt{List: stmts})
 }
 
 var shimPaths = map[string]string{
